@@ -267,6 +267,9 @@ def kappa_of(xpt):
 
 
 # ------------------------------------------------------------------ lattices
+EXTRA_COORDS = []  # a client may add coordinates (C14 adds 2^-15: condition numbers around 1e10)
+
+
 def lattice(n, level):
     """Absolute coordinates of candidate points."""
     if n == 1:
@@ -275,7 +278,7 @@ def lattice(n, level):
     if level == "thin":
         vals = [0.0, 1.0, -1.0, T40]
     else:
-        vals = [0.0, 1.0, -1.0, 2.0, -2.0, T10, T40]
+        vals = [0.0, 1.0, -1.0, 2.0, -2.0, T10, T40] + list(EXTRA_COORDS)
     pts = list(itertools.product(vals, repeat=n))
     if n >= 3:
         pts = [p for p in pts if sum(1 for c in p if c in (T20, T40)) <= 1 and sum(1 for c in p if abs(c) == 2.0) <= 1]
